@@ -727,6 +727,40 @@ var Catalogue = []Mutation{
 			return true
 		})
 	}},
+	{"BLSCH-NON-BLS-PREFIX", "cd", func(m *MutCtx) bool {
+		// a correctly signed change for a validator whose credentials are hash(from_bls_pubkey)[1:] behind a
+		// prefix that is neither 0x00 nor 0x01: only BLS_WITHDRAWAL_PREFIX credentials may be changed
+		sp := m.sp()
+		var cand []uint64
+		for i := range m.Pre.Validators {
+			v := &m.Pre.Validators[i]
+			k, ok := m.keyOfValidator(uint64(i))
+			if !ok || v.WithdrawalCredentials[0] == refspec.BLS_WITHDRAWAL_PREFIX || v.WithdrawalCredentials[0] == refspec.ETH1_ADDRESS_WITHDRAWAL_PREFIX {
+				continue
+			}
+			w := blsCredFor(k)
+			w[0] = v.WithdrawalCredentials[0]
+			if w == v.WithdrawalCredentials {
+				cand = append(cand, uint64(i))
+			}
+		}
+		if len(cand) == 0 {
+			return false
+		}
+		vi := cand[m.Pr.n(len(cand))]
+		k, _ := m.keyOfValidator(vi)
+		ch := refspec.BLSToExecutionChange{ValidatorIndex: vi, FromBLSPubkey: refspec.KeyPubkey(WithdrawalKeyBase + k)}
+		copy(ch.ToAddress[:], m.Pr.bytes(20))
+		dom := sp.ComputeDomain(refspec.DOMAIN_BLS_TO_EXECUTION_CHANGE, sp.P.ForkVersions[refspec.Phase0], m.Pre.GenesisValidatorsRoot)
+		sc := refspec.SignedBLSToExecutionChange{Message: ch, Signature: refspec.Sign(WithdrawalKeyBase+k, sp.ComputeSigningRoot(sp.HTR("BLSToExecutionChange", ch.V()), dom))}
+		b := &m.B.Message.Body
+		if len(b.BLSChanges) > 0 {
+			b.BLSChanges[m.Pr.n(len(b.BLSChanges))] = sc
+		} else {
+			b.BLSChanges = append(b.BLSChanges, sc)
+		}
+		return true
+	}},
 	{"BLSCH-DUP", "cd", func(m *MutCtx) bool {
 		b := &m.B.Message.Body
 		if len(b.BLSChanges) == 0 || uint64(len(b.BLSChanges)) >= m.sp().P.MAX_BLS_TO_EXECUTION_CHANGES {
